@@ -11,6 +11,8 @@ import shutil
 import tempfile
 
 from nssverif import pipeline, par, tlc
+import numpy as np
+
 from nssverif.kit import PropertyRun
 
 
@@ -60,7 +62,10 @@ def run(tier="quick", seed=0):
         if thorough or (full and k in (1, 2, 7, 15)):
             jobs.append({"kind": "exit", "spec": _spec_of(mode, optical, radio, thrown), "seed": seed + 1, "k": k})
     # failures inside stages, clean runs, runs without write_stages, other spectra / clouds
-    variants = [{"spectrum": "mono", "cloud": "none"}, {"spectrum": "power", "cloud": "uniform"}]
+    # (a detector longitude outside [-180, 180) deg is a valid configuration: whatever a stage does to normalise it must not reach
+    # columns that are already stored and written)
+    variants = [{"spectrum": "mono", "cloud": "none"}, {"spectrum": "power", "cloud": "uniform"},
+                {"spectrum": "mono", "cloud": "none", "set": {"detector.initial_position.longitude": float(np.radians(200.0))}}]
     if thorough:
         variants += [{"spectrum": "power", "cloud": "map"}, {"spectrum": "mono", "cloud": "map", "altitude": 33.0}]
     for mode in ("Diffuse", "Target"):
